@@ -105,16 +105,23 @@ class CSSStyleSheet(cssutils.stylesheets.StyleSheet):
         "Remove all namespace rules with same namespaceURI but last."
         rules = self.cssRules
         namespaceitems = list(self.namespaces.items())
-        i = 0
-        while i < len(rules):
-            rule = rules[i]
-            if (
-                rule.type == rule.NAMESPACE_RULE
-                and (rule.prefix, rule.namespaceURI) not in namespaceitems
-            ):
-                self.deleteRule(i)
-            else:
-                i += 1
+        obsolete = [
+            rule
+            for rule in rules
+            if rule.type == rule.NAMESPACE_RULE
+            and (rule.prefix, rule.namespaceURI) not in namespaceitems
+        ]
+        if obsolete:
+            # check first, so that no rule is removed if one cannot be
+            kept = [uri for (prefix, uri) in namespaceitems]
+            for uri in self._getUsedURIs():
+                if uri not in kept and uri in [r.namespaceURI for r in obsolete]:
+                    raise xml.dom.NoModificationAllowedErr(
+                        'CSSStyleSheet: NamespaceURI defined in this rule is '
+                        'used, cannot remove.'
+                    )
+        for rule in obsolete:
+            self.deleteRule(rule)
 
     def _getUsedURIs(self):
         "Return set of URIs used in the sheet."
